@@ -58,7 +58,8 @@ UPSTREAM = {
     "sort_chunk": lambda t, tmp: etl.sort(t, buffersize=2, tempdir=tmp),
     "sort_nocache": lambda t, tmp: etl.sort(t, buffersize=2, tempdir=tmp, cache=False),
     "select": lambda t, tmp: etl.select(t, lambda r: True),
-    "fromdicts_gen": lambda t, tmp: etl.fromdicts((dict(zip(t[0], r)) for r in t[1:] if len(r) == len(t[0])), header=list(t[0])),
+    "fromdicts_gen": lambda t, tmp: (lambda rows: etl.fromdicts((dict(zip(rows[0], r)) for r in rows[1:] if len(r) == len(rows[0])),
+                                                              header=list(rows[0])))(list(t)),
 }
 
 
@@ -99,8 +100,10 @@ def _case(draw, tier, targets):
     diamond = e.n >= 2 and not e.has("file") and not e.cells and draw(st.integers(0, 3)) == 0
     if diamond:
         S = [S[0]] * e.n
+    # the container form of every source (list of lists, tuple of tuples, an object with only __iter__ ...)
+    forms = [draw(st.sampled_from(["lists", "lists"] + catgen.FORMS)) for _ in S] if not e.cells else ["lists"] * len(S)
     return {"entry": name, "variant": variant, "sources": S, "schedule": [list(a) for a in acts],
-            "fresh": draw(st.integers(1, 2)), "upstream": up, "diamond": diamond}
+            "fresh": draw(st.integers(1, 2)), "upstream": up, "diamond": diamond, "forms": forms}
 
 
 def case(tier, shard=0, nshards=1):
@@ -120,7 +123,15 @@ def run_schedule(case, ctx):
     # the solo pass of an identically built view over separately copied sources
     res = e.prepare(codec.snapshot(case["sources"]), tmp) if e.has("file") else None
     diamond = bool(case.get("diamond"))
+    forms = case.get("forms") or []
+
+    def shaped():
+        S = codec.snapshot(case["sources"])
+        return [catgen.shape(t, forms[i]) if i < len(forms) else t for i, t in enumerate(S)]
+    if any(f != "lists" for f in forms):
+        ctx.label("container-forms")
     try:
+        # the solo pass runs on plain lists of lists: the container form must not matter
         solo = [norm(r) for r in _build(e, codec.snapshot(case["sources"]), variant, tmp, res, up)]
     except Exception as ex:
         ctx.label("rejected:" + type(ex).__name__)  # totality is not C01's business
@@ -129,13 +140,13 @@ def run_schedule(case, ctx):
         # one object as every input must behave like equal but separate inputs
         ctx.label("diamond")
         try:
-            dsolo = [norm(r) for r in _build(e, codec.snapshot(case["sources"]), variant, tmp, res, up, diamond=True)]
+            dsolo = [norm(r) for r in _build(e, shaped(), variant, tmp, res, up, diamond=True)]
         except Exception as ex:
             return exc_fail("%s/%s/diamond" % (e.name, variant), ex)
         if dsolo != solo:
             return Fail("%s/%s/diamond-differs" % (e.name, variant), "with one object (upstream %s) as every input the pass gave %r, with "
                         "equal separate inputs %r" % (up, dsolo, solo))
-    view = _build(e, codec.snapshot(case["sources"]), variant, tmp, res, up, diamond=diamond)
+    view = _build(e, shaped(), variant, tmp, res, up, diamond=diamond)
     its = {}
     live_max = 0
     last = None
